@@ -1,4 +1,4 @@
-CONSTANTS Family = "upper"  MaxOps = 1  Bug = ""  Emit = TRUE
+CONSTANTS Family = "upper"  MaxOps = 1  Bug = ""  Emit = TRUE  Wide = FALSE
 CONSTANT Codes <- MCCodesOne
 INIT Init
 NEXT Next
